@@ -81,23 +81,26 @@ Section Sound.
 
   Hypothesis WF : wf_chunk c nconsts = true.
 
+  Lemma live_incl : forall items it, In it (live_items items) -> In it items.
+  Proof. intros items it H. unfold live_items in H. apply filter_In in H. tauto. Qed.
+
   Lemma wf_items : exists items,
       scan_chunk c = Some items /\
-      forallb (check_item (build items) nconsts) items = true /\
-      (exists n0, PM.find (key 0) (build items) = Some (0, n0)) /\
+      forallb (check_item (build (live_items items)) nconsts) (live_items items) = true /\
+      (exists n0, PM.find (key 0) (build (live_items items)) = Some (0, n0)) /\
       forall it, In it items -> item_fetch it.
   Proof.
     unfold wf_chunk in WF. destruct (scan_chunk c) as [items |] eqn:Hs; [| discriminate].
     exists items. apply andb_true_iff in WF. destruct WF as [Hall H0].
     split; [reflexivity |]. split; [exact Hall |]. split.
-    - destruct (PM.find (key 0) (build items)) as [[b n0] |]; [| discriminate].
+    - destruct (PM.find (key 0) (build (live_items items))) as [[b n0] |]; [| discriminate].
       apply N.eqb_eq in H0. subst b. eauto.
     - unfold scan_chunk in Hs. destruct (newframe_count c); [| discriminate].
       eapply scan_sound; [exact Hs | reflexivity |]. intros it [].
   Qed.
 
   Definition the_table : table :=
-    match scan_chunk c with Some items => build items | None => PM.empty _ end.
+    match scan_chunk c with Some items => build (live_items items) | None => PM.empty _ end.
 
   Definition inv (s : astate) : Prop :=
     let 'AS pc n := s in
@@ -113,7 +116,7 @@ Section Sound.
     apply build_find in H. destruct H as (it & Hin & Hpc & Hv).
     injection Hv as -> ->.
     exists (it_i it), (it_k it). split.
-    - rewrite <- Hpc. apply Hf. exact Hin.
+    - rewrite <- Hpc. apply Hf. apply live_incl. exact Hin.
     - rewrite forallb_forall in Hall. specialize (Hall it Hin).
       destruct it as [pc' i k b' n']. cbn in Hpc. subst pc'. exact Hall.
   Qed.
@@ -260,6 +263,7 @@ Section Sound.
     destruct wf_items as (items & Hs & _ & _ & Hf).
     unfold the_table in Hm. rewrite Hs in Hm. apply build_find in Hm.
     destruct Hm as (it & Hin & Hpc & _).
+    apply live_incl in Hin.
     exists items, it. repeat split; try assumption. rewrite <- Hpc. apply Hf. exact Hin.
   Qed.
 End Sound.
